@@ -93,7 +93,7 @@ def interval(e, env, depth=0):
             if n in env.upper and (hi is None or (hi.a, hi.b) > (env.upper[n].a, env.upper[n].b)):
                 hi = env.upper[n]
             return lo, hi
-        return B(0, 0), env.upper.get(n)
+        return (B(0, 1) if n in env.nonzero else B(0, 0)), env.upper.get(n)
     if k == "bin" and e["op"] == "%":
         lo, hi = interval(e["r"], env, depth + 1)
         low = B(0, 1) if astx.show(e, 60) in env.nonzero else B(0, 0)
